@@ -284,8 +284,12 @@ pub fn run_part_with(run: &mut Run, a: &Args, prop: &str, vlog: VlogMode) -> (u6
     };
     let mine: BTreeSet<&str> = classes_of(prop).iter().cloned().collect();
     let mut reported = 0usize;
+    let only_trace: Option<usize> = std::env::var("VERIF_E2_TRACE").ok().and_then(|v| v.parse().ok()); // debug
     for ti in 0..ntraces {
         let mut tr = r.fork(ti as u64);
+        if only_trace.is_some_and(|o| o != ti) {
+            continue;
+        }
         let cfg = e2_cfg(&mut tr, vlog);
         let committers = if ti % 3 == 2 { tr.range(2, 6) as usize } else { 1 };
         let mut w = e2_workload(&mut tr, &cfg, a.tier.pick(70, 160), committers);
@@ -406,7 +410,29 @@ pub fn run_part_with(run: &mut Run, a: &Args, prop: &str, vlog: VlogMode) -> (u6
             let j = g2r.usize(i + 1);
             clean.swap(i, j);
         }
-        for (gi, (idx, n)) in clean.into_iter().take(a.tier.pick(2, 5)).enumerate() {
+        // images whose commit log ends in a torn tail come first - above all a tail that is the
+        // only content of a fresh segment (the next session appends right behind whatever the
+        // recovery left there); the rest stays in its shuffled order
+        let torn_rank = |idx: usize| match &plans[idx].loss {
+            Loss::PowerCut { file, writes, .. } if file.ends_with(".wal") && *writes == 0 => 0,
+            Loss::PowerCut { file, .. } if file.ends_with(".wal") => 1,
+            _ => 2,
+        };
+        let mut picked: Vec<(usize, usize)> = vec![];
+        for rank in 0..2 {
+            if let Some(x) = clean.iter().find(|(i, _)| torn_rank(*i) == rank) {
+                picked.push(*x);
+            }
+        }
+        for x in &clean {
+            if picked.len() >= a.tier.pick(3, 6) {
+                break;
+            }
+            if !picked.contains(x) {
+                picked.push(*x);
+            }
+        }
+        for (gi, (idx, n)) in picked.into_iter().enumerate() {
             let plan = &plans[idx];
             let imgdir = scratch.join(format!("{}-g2img{}", name, gi));
             let mut fs = t.base.clone();
@@ -419,6 +445,12 @@ pub fn run_part_with(run: &mut Run, a: &Args, prop: &str, vlog: VlogMode) -> (u6
             let mut w2 = e2_workload(&mut g2r, &cfg, a.tier.pick(20, 40), 1);
             w2.first_txn = 100_000;
             w2.nkeys = w.nkeys;
+            if gi % 2 == 0 {
+                // enough data for a memtable rotation inside the second session: what it logged
+                // before and after the rotation lies in different segments
+                w2.max_value = cfg.max_memtable_size / 6;
+                w2.txns = a.tier.pick(30, 50);
+            }
             let name2 = format!("{}g{}", name, gi);
             let t2 = match e2::run_worker(&scratch, &name2, &cfg, &w2, a.seed.wrapping_add(7000 + ti as u64 * 10 + gi as u64), None, Some(&imgdir)) {
                 Ok(t2) => t2,
